@@ -44,6 +44,9 @@ PROFILE = H.Profile('c16', nops=(2, 10), final_restart=False,
                              'add_eltorito': 5, 'add_symlink': 1, 'hide': 1, 'mass_dirs': 0.2, 'mass_files': 0.5},
                     sizes=(1, 7, 9, 20, 40, 63, 64, 100, 2047, 2048, 2049, 4096, 4097, 6143, 10000, 20480, 65535))
 
+PROFILE.multi_extent_rate = 0.15        # streams over files of several extents (guarded threshold hook); UDF names of such files
+PROFILE.multi_extent_no_udf = True      # are C01's known finding, so these runs carry no UDF
+
 KW = {'iso': 'iso_path', 'joliet': 'joliet_path', 'udf': 'udf_path', 'rr': 'rr_path'}
 
 
@@ -168,7 +171,7 @@ def same(a, b, masked):
 
 def execute(plan):
     env = plan['env']
-    w = W.World(plan['seed'], tz=env['tz'], clock0=env['clock0'], clock_mode=env['clock_mode'], cache=env['cache'])
+    w = W.World(plan['seed'], tz=env['tz'], clock0=env['clock0'], clock_mode=env['clock_mode'], cache=env['cache'], max_extent=env.get('max_extent'))
     ctx = _Ctx()
     h = hashlib.blake2b(digest_size=16)
     interleaved = 0
